@@ -58,7 +58,7 @@ impl InputGenerator {
 //@     final(self).wf(),   // [C02,~C03,~C04,~C17]
 //@     // C04: on every byte of a stream of key units the real decoder makes exactly the step of the abstract decoder
 //@     dec_good(old(self).view(), byte) ==>
-//@         final(self).view() == dec_step(old(self).view(), byte).0 && ev_of(r) == dec_step(old(self).view(), byte).1,   // [C04]
+//@         final(self).view() == dec_step(old(self).view(), byte).0 && ev_of(r) == dec_step(old(self).view(), byte).1,   // [C04,~C01,~C05,~C10,~C11,~C17]
 //@     // C02: whatever the bytes, a character event carries exactly one well-formed scalar, and the accumulator
 //@     // follows the ideal one (malformed octets dropped, resynchronisation on the next lead/ASCII byte)
 //@     r matches Some(Input::Char(c)) ==> c@.len() == 1 && valid_utf8(c.spec_bytes()),   // [C02]
@@ -67,7 +67,7 @@ impl InputGenerator {
 //@     r matches Some(Input::Control(ControlInput::Enter)) ==> byte == 0x0D || byte == 0x0A,   // [C01]
 //@     r matches Some(Input::Char(c)) ==> nul_free(c.spec_bytes()),
 //@     // shape facts used by Cli
-//@     !old(self).view().csi && byte >= 0x20 && !(old(self).view().prev_esc && byte == 0x5B) ==> !(r matches Some(Input::Control(_))),  // [C04]
+//@     !old(self).view().csi && byte >= 0x20 && !(old(self).view().prev_esc && byte == 0x5B) ==> !(r matches Some(Input::Control(_))),  // [C04,~C01,~C05,~C10,~C11,~C17]
         let last_byte = self.last_byte;
         self.last_byte = byte;
         if self.flags.contains(Flags::CSI_STARTED) {
@@ -84,8 +84,8 @@ impl InputGenerator {
 //@ requires old(self).flags.has(Flags::CSI_STARTED),
 //@ ensures
 //@     final(self).last_byte == old(self).last_byte, final(self).utf8 == old(self).utf8,
-//@     final(self).flags.has(Flags::CSI_STARTED) == !(0x40 <= byte <= 0x7E),   // [C04]
-//@     ctl_ev(r) == (if 0x40 <= byte <= 0x7E { csi_final(byte) } else { None }),   // [C04]
+//@     final(self).flags.has(Flags::CSI_STARTED) == !(0x40 <= byte <= 0x7E),   // [C04,~C01,~C05,~C10,~C11,~C17]
+//@     ctl_ev(r) == (if 0x40 <= byte <= 0x7E { csi_final(byte) } else { None }),   // [C04,~C01,~C05,~C10,~C11,~C17]
         // skip all parameter bytes and process only last byte in CSI sequence
         if (0x40..=0x7E).contains(&byte) {
             self.flags.set(Flags::CSI_STARTED, false);
@@ -109,10 +109,10 @@ impl InputGenerator {
 //@     final(self).flags == old(self).flags,
 //@     dec_good(single_s0(last_byte, old(self).utf8.pending()), byte) ==>
 //@         final(self).view() == dec_step(single_s0(last_byte, old(self).utf8.pending()), byte).0
-//@         && ev_of(r) == dec_step(single_s0(last_byte, old(self).utf8.pending()), byte).1,   // [C04]
+//@         && ev_of(r) == dec_step(single_s0(last_byte, old(self).utf8.pending()), byte).1,   // [C04,~C01,~C05,~C10,~C11,~C17]
 //@     final(self).utf8.pending() == dec_step(single_s0(last_byte, old(self).utf8.pending()), byte).0.acc,   // [C02]
 //@     r matches Some(Input::Char(c)) ==> c@.len() == 1 && valid_utf8(c.spec_bytes()),   // [C02]
-//@     byte >= 0x20 ==> !(r matches Some(Input::Control(_))),   // [C04]
+//@     byte >= 0x20 ==> !(r matches Some(Input::Control(_))),   // [C04,~C01,~C05,~C10,~C11,~C17]
 //@     r matches Some(Input::Control(ControlInput::Enter)) ==> byte == 0x0D || byte == 0x0A,   // [C01]
 //@     r matches Some(Input::Char(c)) ==> nul_free(c.spec_bytes()),
         let control = match byte {
